@@ -54,7 +54,14 @@ def main():
   r0 = sh(f'cd /tmp && /venv/bin/python {demo}', env=env()); out['demo_without_change'] = r0.returncode
   a = sh(f'git -C {WT} apply {diff}')
   if a.returncode != 0:
-    print('APPLY FAILED', a.stderr); sys.exit(3)
+    # the patch was written against an earlier commit (before a later fix: commit touched a neighbouring line)
+    a = sh(f'git -C {WT} apply -C1 {diff}')
+    out['apply_note'] = 'applied with reduced context (a later fix commit changed a neighbouring line)'
+  if a.returncode != 0:
+    a = sh(f'cd {WT} && patch -p1 --fuzz=3 --no-backup-if-mismatch < {diff}')
+    out['apply_note'] = 'applied with patch --fuzz=3'
+  if a.returncode != 0:
+    print('APPLY FAILED', a.stderr, a.stdout); sys.exit(3)
   touched = sh(f'git -C {WT} diff --name-only').stdout.split()
   out['files'] = touched
   try:
